@@ -31,6 +31,95 @@ def visit_str_keys(p, adt):
     return keys
 
 
+
+def r7_ranges(ctx, p):
+    """R7: byte ranges of the header are inclusive: a pair (a, b) selects input[a..=b]"""
+    ctx.rule("C04-R7", "byte ranges given in the header are inclusive: every slice of the data taken from a header pair (a, b) is input[a ..= b] (or input[a .. b+1]); holds for the section ranges (parse_all) and the window rows (STREAM_WIN)")
+    from ..expr import closure_env
+    sites = []
+    for path, b in p.bodies.items():
+        if not path.startswith("model::parser::"):
+            continue
+        eb = ExprBuilder(b)
+        for bb, t in b.calls():
+            c_ = t["callee"]
+            nm = cm.callee_name(c_) if c_["k"] == "fndef" else ""
+            if not (nm.endswith("<impl [T]>::get") or nm.endswith("Index<I>>::index") or nm.endswith("SliceIndex<[T]>>::index")):
+                continue
+            if len(t["args"]) != 2:
+                continue
+            rg = eb.at(bb).op(t["args"][1])
+            lo = hi = None
+            incl = False
+            if rg[0] == "agg" and rg[1].endswith("Range::Range") and len(rg[2]) == 2:
+                lo, hi = rg[2]
+            elif rg[0] == "call" and rg[1].endswith("RangeInclusive::<Idx>::new") and len(rg[2]) == 2:
+                lo, hi = rg[2]
+                incl = True
+            else:
+                continue
+            # precise captures: `range.0` captured on its own is the field .0 of the captured pair
+            from ..loops import rewrite
+
+            def unsplit(n):
+                if n[0] == "upvar" and "." in n[1]:
+                    root, *fs = n[1].split(".")
+                    e2 = ("upvar", root)
+                    for f_ in fs:
+                        e2 = ("field", e2, f_)
+                    return e2
+                return None
+            lo, hi = rewrite(lo, unsplit), rewrite(hi, unsplit)
+            # only ranges whose start is the first half of a pair
+            if not (lo[0] == "field" and lo[2] == "0"):
+                continue
+            sites.append((b, bb, t, lo, hi, incl))
+    ctx.anchor("C04-R7", "data slices taken from a header pair", len(sites), 2)
+    from ..loops import rewrite
+
+    def unsplit(n):
+        if n[0] == "upvar" and "." in n[1]:
+            root, *fs = n[1].split(".")
+            e2 = ("upvar", root)
+            for f_ in fs:
+                e2 = ("field", e2, f_)
+            return e2
+        return None
+    for b, bb, t, lo, hi, incl in sites:
+        loc = cm.loc_of(t["span"])
+        base = lo[1]
+        # a closure parameter standing for `b + 1`: the closure is handed to checked_add(b, 1).and_then(..)
+        if hi[0] == "arg" and b.kind == "Closure":
+            dp = p.bodies.get(getattr(b, "direct_parent", None) or b.parent)
+            if dp is not None:
+                deb = ExprBuilder(dp)
+                for pbb, pt in dp.calls():
+                    pc = pt["callee"]
+                    pn = cm.callee_name(pc) if pc["k"] == "fndef" else ""
+                    if pn.endswith("Option::<T>::and_then") or pn.endswith("Option::<T>::map"):
+                        a1 = deb.at(pbb).op(pt["args"][1])
+                        if a1[0] == "agg" and a1[1] == "closure:" + b.path:
+                            hi = rewrite(success_value(p, ("field", ("variant", deb.op(pt["args"][0]), "Some"), "0")), unsplit)
+                            # the receiver is in the parent's terms: captured variables by value
+                            env, _par = closure_env(p, b)
+        def norm(e):
+            # captured `range` in a closure and the parent's `range`: compare by the pair's rendered root
+            return show(e).replace("^", "").replace("*", "")
+        bs = norm(base)
+        want_incl = Poly.atom(("B1",))
+
+        def atomize(e):
+            if e[0] == "field" and e[2] == "1" and norm(e[1]) == bs:
+                return ("B1",)
+            return None
+        hp = to_poly(hi, atomize)
+        okr = hp == want_incl if incl else hp == want_incl + Poly.const(1)
+        if okr:
+            ctx.ok("C04-R7", "%s: slice [%s.0 ..= %s.1]" % (cm.short(b.path), bs, bs), loc)
+        else:
+            ctx.fail("C04-R7", b.path, "range end", "the header pair %s selects input[%s.0 %s %s]: a header range (a, b) must select the inclusive byte range a..=b (the last byte of the section / window row would be dropped or an extra one read)" % (bs, bs, "..=" if incl else "..", show(hi)[:80]), loc)
+
+
 def run(ctx):
     ctx.rule("C04-R1", "same-name mapping header -> metadata: every field f of GlobalModelMetadata / StreamModelMetadata is fed by the header field f (gv_off_context through Question::parse); the header structs' serde keys are the upper-case field names")
     ctx.rule("C04-R2", "child order: the third token of a tree node line reaches `no`, the fourth `yes`; convert_tree maps yes->yes, no->no; Tree::search_node follows `yes` when the question matches")
@@ -461,6 +550,7 @@ def run(ctx):
 
     ctx.note("not decided: that jlabel-question implements HTS `*`/`?` wildcard matching (third-party semantics); window text -> coefficient values (nom `double`); that the selected leaf is the one the tree's questions select is decided only as far as R2/R3")
     ctx.assume("serde_derive maps the i-th key of the field visitor to the i-th struct field")
+    r7_ranges(ctx, p)
     expl = ("Resolved dataflow from header fields to metadata fields, from node-line token positions to yes/no child fields and on to the "
             "tree walk, exact polynomial forms of the index bases and of the three PDF record lengths, the mean|variance|msd split of a "
             "record, the element parsers and the f32->f64 widening, control dependence of each option store on its string-literal key, "
